@@ -12,6 +12,7 @@ FAM_CFG = "INIT FamInit\nNEXT FamNext\nCONSTRAINT FamEmit\nINVARIANT FamLaw\nCHE
 GRID_CFG = "INIT GridInit\nNEXT GridNext\nCONSTRAINT GridEmit\nINVARIANT GridLaw\nCHECK_DEADLOCK FALSE\n"
 JUDGE_CFG = "INIT JudgeInit\nNEXT JudgeNext\nCHECK_DEADLOCK FALSE\n"
 DRIVER = "checks.c04_driver:driver"
+FAM_KINDS = ("long", "esc", "stmt", "lt", "nest", "chain")
 
 KEYWORDS = ["var", "function", "return", "if", "else", "while", "do", "for", "in", "of", "break", "continue", "switch", "case",
             "default", "try", "catch", "finally", "throw", "new", "delete", "typeof", "instanceof", "this", "true", "false",
@@ -78,10 +79,14 @@ def run(rep):
     rng = random.Random(rep.seed)
     stats = {"recs": 0, "ncalls": 0, "discovered": {}}
     maxlen = 4 if quick else 5
+    # development switch: a partial run (never used by ./check; a partial run is not evidence)
+    parts = set(os.environ.get("C04_PARTS", "cls,toks,fam,grid,corpus").split(","))
+    partial = parts != {"cls", "toks", "fam", "grid", "corpus"}
     # the four enumeration / model-checking runs are independent: the quick tier starts them together (wall clock), the thorough
     # tier runs them one after the other (memory)
     jobs = {"mc_emit_ABCD": (MC_EMIT_CFG, {"TIER": rep.tier, "MAXLEN": maxlen}, 1700), "toks": (TOK_CFG, {"TIER": rep.tier}, 1200),
             "fam": (FAM_CFG, {"TIER": rep.tier}, 600), "grid": (GRID_CFG, {"TIER": rep.tier}, 600)}
+    jobs = {k: v for k, v in jobs.items() if k.split("_")[0].replace("mc", "cls") in parts}
     futures = {}
     if quick:
         from concurrent.futures import ThreadPoolExecutor
@@ -95,149 +100,178 @@ def run(rep):
             return futures[tag].result()
         cfg, env, tmo = jobs[tag]
         return tlc_run_retry(rep, "C04", cfg, env=env, timeout=tmo, tag=tag)
-    # ---- A. LexerFSM: model checking, and enumeration of the class strings (S->C), one alphabet at a time ----------
-    ncls = 0
-    nud = 0
-    for pf in (["ABCD"] if quick else ["A", "B", "C", "D"]):
-        if len(pf) == 1:
-            res = tlc_run_retry(rep, "C04", MC_EMIT_CFG, env={"TIER": rep.tier, "MAXLEN": maxlen, "PROFILE": pf}, timeout=1700, tag="mc_emit_" + pf)
-        else:
-            res = tlc_job("mc_emit_" + pf)
-        rep.add_tlc("LexerFSM laws + enumeration, alphabet %s, length <= %d" % (pf, maxlen), res)
-        cls_strings = sorted({tuple(r["cls"]) for r in res.records if r.get("kind") == "cls"})
-        res.records, res.stdout = None, ""
-        if len(cls_strings) < 13 ** maxlen - (12 ** maxlen if pf == "D" else 0):
-            raise Machinery("only %d class strings enumerated for alphabet %s" % (len(cls_strings), pf))
-        ncls += len(cls_strings)
-        nud += sum(1 for c in cls_strings if "ud" in c)
-        # engine + judge in chunks (memory)
-        for lo in range(0, len(cls_strings), 150000):
+    def part_cls():
+        # ---- A. LexerFSM: model checking, and enumeration of the class strings (S->C), one alphabet at a time ----------
+        ncls = 0
+        nud = 0
+        for pf in (["ABCD"] if quick else ["A", "B", "C", "D"]):
+            if len(pf) == 1:
+                res = tlc_run_retry(rep, "C04", MC_EMIT_CFG, env={"TIER": rep.tier, "MAXLEN": maxlen, "PROFILE": pf}, timeout=1700, tag="mc_emit_" + pf)
+            else:
+                res = tlc_job("mc_emit_" + pf)
+            rep.add_tlc("LexerFSM laws + enumeration, alphabet %s, length <= %d" % (pf, maxlen), res)
+            cls_strings = sorted({tuple(r["cls"]) for r in res.records if r.get("kind") == "cls"})
+            res.records, res.stdout = None, ""
+            if len(cls_strings) < 13 ** maxlen - (12 ** maxlen if pf == "D" else 0):
+                raise Machinery("only %d class strings enumerated for alphabet %s" % (len(cls_strings), pf))
+            ncls += len(cls_strings)
+            nud += sum(1 for c in cls_strings if "ud" in c)
+            # engine + judge in chunks (memory)
+            for lo in range(0, len(cls_strings), 150000):
+                ecases = []
+                for n, cls in enumerate(cls_strings[lo:lo + 150000]):
+                    if "ud" in cls:                    # four digits of other scripts (two more concretisation tables)
+                        concs = (0, 1, 2, 3) if (quick and len(cls) <= 3) else (n % 4,)
+                    else:
+                        concs = (0, 1) if (quick and len(cls) <= 3) else (n % 2,)
+                    for conc in concs:
+                        ecases.append({"kind": "cls", "cls": list(cls), "conc": conc})
+                process(rep, rng, ecases, stats)
+            del cls_strings
+        if nud < 13 ** maxlen - 12 ** maxlen:
+            raise Machinery("only %d class strings contain the class ud" % nud)
+        rep.spaces.append({"space": "character-class strings over four 13-class alphabets, length <= %d (TLC-enumerated; of alphabet D "
+                                    "those that contain a non-ASCII decimal digit: %d)" % (maxlen, nud), "cases": ncls, "complete": True})
+        if not quick:
+            # the deep run: length 6 on the comment / string / regex alphabet (no emission)
+            r6 = tlc_run_retry(rep, "C04", MC_CFG, env={"TIER": rep.tier, "MAXLEN": 6, "PROFILE": "A"}, timeout=2400, tag="mc_deep")
+            rep.add_tlc("LexerFSM laws, alphabet A, length <= 6", r6)
+            # longer seeded strings over the same alphabets
+            alph = {"A": ["sp", "nl", "g", "1", "q", "Q", "bs", "/", "*", "[", "]", "+", "#"],
+                    "B": ["0", "1", "9", "x", "e", "a", "u", ".", "+", "q", "bs", "{", "}"],
+                    "C": ["=", "<", ">", "!", "&", "*", "+", "/", "g", "b", "o", "0", "7"],
+                    "D": ["ud", "1", "0", ".", "e", "x", "g", "q", "bs", "u", "sp", "+", "/"]}
             ecases = []
-            for n, cls in enumerate(cls_strings[lo:lo + 150000]):
-                if "ud" in cls:                    # four digits of other scripts (two more concretisation tables)
-                    concs = (0, 1, 2, 3) if (quick and len(cls) <= 3) else (n % 4,)
-                else:
-                    concs = (0, 1) if (quick and len(cls) <= 3) else (n % 2,)
-                for conc in concs:
-                    ecases.append({"kind": "cls", "cls": list(cls), "conc": conc})
+            for _ in range(150000):
+                a = alph[rng.choice("ABBCD")]
+                cls = [rng.choice(a) for _ in range(rng.randrange(6, 13))]
+                if "&&=" in "".join(cls):
+                    continue
+                ecases.append({"kind": "cls", "cls": cls, "conc": rng.randrange(4 if "ud" in cls else 2)})
+            rep.spaces.append({"space": "seeded class strings of length 6..12", "cases": len(ecases), "complete": False})
             process(rep, rng, ecases, stats)
-        del cls_strings
-    if nud < 13 ** maxlen - 12 ** maxlen:
-        raise Machinery("only %d class strings contain the class ud" % nud)
-    rep.spaces.append({"space": "character-class strings over four 13-class alphabets, length <= %d (TLC-enumerated; of alphabet D "
-                                "those that contain a non-ASCII decimal digit: %d)" % (maxlen, nud), "cases": ncls, "complete": True})
-    if not quick:
-        # the deep run: length 6 on the comment / string / regex alphabet (no emission)
-        r6 = tlc_run_retry(rep, "C04", MC_CFG, env={"TIER": rep.tier, "MAXLEN": 6, "PROFILE": "A"}, timeout=2400, tag="mc_deep")
-        rep.add_tlc("LexerFSM laws, alphabet A, length <= 6", r6)
-        # longer seeded strings over the same alphabets
-        alph = {"A": ["sp", "nl", "g", "1", "q", "Q", "bs", "/", "*", "[", "]", "+", "#"],
-                "B": ["0", "1", "9", "x", "e", "a", "u", ".", "+", "q", "bs", "{", "}"],
-                "C": ["=", "<", ">", "!", "&", "*", "+", "/", "g", "b", "o", "0", "7"],
-                "D": ["ud", "1", "0", ".", "e", "x", "g", "q", "bs", "u", "sp", "+", "/"]}
+
+    def part_toks():
+        # ---- A2. token sequences over the expression vocabulary: acceptor of JsGrammar (S->C) -----------------------------
+        tres = tlc_job("toks")
+        rep.add_tlc("JsGrammar.ParseStmts acceptor laws + enumeration of token sequences", tres)
+        seqs = sorted({tuple(r["cls"]) for r in tres.records if r.get("kind") == "toks"})
+        tres.records, tres.stdout = None, ""
+        if len(seqs) < 10000:
+            raise Machinery("only %d token sequences" % len(seqs))
+        rep.spaces.append({"space": "token sequences over 25 expression tokens, length <= %d (TLC-enumerated)" % (3 if quick else 4),
+                           "cases": len(seqs), "complete": True})
+        for lo in range(0, len(seqs), 200000):
+            process(rep, rng, [{"kind": "src", "src": " ".join(t), "toks": list(t), "what": "token sequence"} for t in seqs[lo:lo + 200000]], stats)
+        del seqs
+
+    def part_fam():
+        # ---- A3. literal / statement families: long numeric literals, braced escapes, statement head x operand, misplaced jumps --
+        fres = tlc_job("fam")
+        rep.add_tlc("C04.FamCases (long literals, code point escapes, statement heads x operands, jumps x places, line terminators x contexts) + FamLaw", fres)
+        fams = {}
+        for r in fres.records:
+            if r.get("kind") in FAM_KINDS:
+                fams[json.dumps(r, sort_keys=True)] = r
+        fams = [fams[k] for k in sorted(fams)]
+        fres.records, fres.stdout = None, ""
+        nfam = {k: sum(1 for f in fams if f["kind"] == k) for k in FAM_KINDS}
+        if nfam["long"] < 500 or nfam["esc"] < 200 or nfam["stmt"] < 3000 or nfam["lt"] < 80 or nfam["nest"] < 400 or nfam["chain"] < 150:
+            raise Machinery("families incomplete: %r" % nfam)
+        lens_ = sorted({f["n"] for f in fams if f["kind"] == "long"})
+        rep.spaces.append({"space": "numeric literals of %d..%d digits (13 forms x %d lengths x 2 digits x 5 embeddings, TLC-enumerated)"
+                                    % (lens_[0], lens_[-1], len(lens_)), "cases": nfam["long"], "complete": True})
+        rep.spaces.append({"space": "code point escapes \\u{H} (20 values up to 18 F's x 12 carriers, TLC-enumerated)", "cases": nfam["esc"], "complete": True})
+        rep.spaces.append({"space": "statement head x misplaced operand, jump x place (TLC-enumerated)", "cases": nfam["stmt"], "complete": True})
+        rep.spaces.append({"space": "line terminator (LF CR CRLF LS PS) x lexical context (TLC-enumerated)", "cases": nfam["lt"], "complete": True})
+        depths = sorted({f["n"] for f in fams if f["kind"] == "nest"})
+        rep.spaces.append({"space": "nesting shape x depth (%d shapes and rotations of shapes: functions, brackets / operators, statements; depths %s; "
+                                    "TLC-enumerated, front-end work counted)" % (len({f["name"] for f in fams if f["kind"] == "nest"}),
+                                                                                ",".join(map(str, depths))), "cases": nfam["nest"], "complete": True})
+        rep.spaces.append({"space": "flat source that nests the syntax tree: %d chain kinds x lengths %s (TLC-enumerated)"
+                                    % (len({f["name"] for f in fams if f["kind"] == "chain"}), sorted({f["n"] for f in fams if f["kind"] == "chain"})),
+                           "cases": nfam["chain"], "complete": True})
+        process(rep, rng, [{"kind": "fam", "fam": f} for f in fams], stats)
+
+    def part_grid():
+        # ---- B. the built-in grid: argument vectors enumerated by TLC, functions discovered at run time -----------------
+        gres = tlc_job("grid")
+        rep.add_tlc("C04.ArgVectors + GridLaw", gres)
+        vtag = {tuple(r["cls"]): r["pf"] for r in gres.records if r.get("kind") == "vec"}
+        vecs = sorted(vtag, key=lambda v: (len(v), v))
+        huge = sorted({r["pf"] for r in gres.records if r.get("kind") == "huge"})
+        allocating = sorted({r["pf"] for r in gres.records if r.get("kind") == "allocating"})
+        short = [v for v in vecs if vtag[v] == "short"]
+        classes = sorted({a for v in vecs for a in v})
+        if len(vecs) < 500 or len(short) < 50 or len(huge) < 3 or len(allocating) < 10 or not any(len(v) == 3 for v in vecs):
+            raise Machinery("argument grid incomplete: %d vectors, %d short, %d huge classes, %d allocating names" % (len(vecs), len(short), len(huge), len(allocating)))
+        rep.spaces.append({"space": "argument vectors of length <= 3 over %d argument classes (TLC-enumerated; %d of length 3; %d short vectors for "
+                                    "the receiver variants)" % (len(classes), sum(1 for v in vecs if len(v) == 3), len(short)),
+                           "cases": len(vecs), "complete": True})
+        rep.notes["argument_classes"] = classes
+        py_classes = set(ARG_PY)
         ecases = []
-        for _ in range(150000):
-            a = alph[rng.choice("ABBCD")]
-            cls = [rng.choice(a) for _ in range(rng.randrange(6, 13))]
-            if "&&=" in "".join(cls):
-                continue
-            ecases.append({"kind": "cls", "cls": cls, "conc": rng.randrange(4 if "ud" in cls else 2)})
-        rep.spaces.append({"space": "seeded class strings of length 6..12", "cases": len(ecases), "complete": False})
+        nslice = 12
+        for recv in RECEIVERS:
+            mine = short if (quick and recv in VARIANT_RECEIVERS) else vecs
+            ns = nslice if len(mine) > 200 else 2
+            for k in range(ns):
+                for intrep in (("lit",) if quick else ("lit", "float")):
+                    # the second representation only differs for the vectors that contain a number
+                    vs = [list(v) for v in mine[k::ns] if intrep == "lit" or any(a in py_classes for a in v)]
+                    ecases.append({"kind": "grid", "recv": recv, "vecs": vs, "allocating": allocating, "huge": huge, "intrep": intrep})
+        stats["nrecv"] = len(RECEIVERS)
         process(rep, rng, ecases, stats)
-    # ---- A2. token sequences over the expression vocabulary: acceptor of JsGrammar (S->C) -----------------------------
-    tres = tlc_job("toks")
-    rep.add_tlc("JsGrammar.ParseStmts acceptor laws + enumeration of token sequences", tres)
-    seqs = sorted({tuple(r["cls"]) for r in tres.records if r.get("kind") == "toks"})
-    tres.records, tres.stdout = None, ""
-    if len(seqs) < 10000:
-        raise Machinery("only %d token sequences" % len(seqs))
-    rep.spaces.append({"space": "token sequences over 25 expression tokens, length <= %d (TLC-enumerated)" % (3 if quick else 4),
-                       "cases": len(seqs), "complete": True})
-    for lo in range(0, len(seqs), 200000):
-        process(rep, rng, [{"kind": "src", "src": " ".join(t), "toks": list(t), "what": "token sequence"} for t in seqs[lo:lo + 200000]], stats)
-    del seqs
-    # ---- A3. literal / statement families: long numeric literals, braced escapes, statement head x operand, misplaced jumps --
-    fres = tlc_job("fam")
-    rep.add_tlc("C04.FamCases (long literals, code point escapes, statement heads x operands, jumps x places, line terminators x contexts) + FamLaw", fres)
-    fams = {}
-    for r in fres.records:
-        if r.get("kind") in ("long", "esc", "stmt", "lt"):
-            fams[json.dumps(r, sort_keys=True)] = r
-    fams = [fams[k] for k in sorted(fams)]
-    fres.records, fres.stdout = None, ""
-    nfam = {k: sum(1 for f in fams if f["kind"] == k) for k in ("long", "esc", "stmt", "lt")}
-    if nfam["long"] < 500 or nfam["esc"] < 200 or nfam["stmt"] < 3000 or nfam["lt"] < 80:
-        raise Machinery("families incomplete: %r" % nfam)
-    lens_ = sorted({f["n"] for f in fams if f["kind"] == "long"})
-    rep.spaces.append({"space": "numeric literals of %d..%d digits (13 forms x %d lengths x 2 digits x 5 embeddings, TLC-enumerated)"
-                                % (lens_[0], lens_[-1], len(lens_)), "cases": nfam["long"], "complete": True})
-    rep.spaces.append({"space": "code point escapes \\u{H} (20 values up to 18 F's x 12 carriers, TLC-enumerated)", "cases": nfam["esc"], "complete": True})
-    rep.spaces.append({"space": "statement head x misplaced operand, jump x place (TLC-enumerated)", "cases": nfam["stmt"], "complete": True})
-    rep.spaces.append({"space": "line terminator (LF CR CRLF LS PS) x lexical context (TLC-enumerated)", "cases": nfam["lt"], "complete": True})
-    process(rep, rng, [{"kind": "fam", "fam": f} for f in fams], stats)
-    # ---- B. the built-in grid: argument vectors enumerated by TLC, functions discovered at run time -----------------
-    gres = tlc_job("grid")
-    rep.add_tlc("C04.ArgVectors + GridLaw", gres)
-    vtag = {tuple(r["cls"]): r["pf"] for r in gres.records if r.get("kind") == "vec"}
-    vecs = sorted(vtag, key=lambda v: (len(v), v))
-    huge = sorted({r["pf"] for r in gres.records if r.get("kind") == "huge"})
-    allocating = sorted({r["pf"] for r in gres.records if r.get("kind") == "allocating"})
-    short = [v for v in vecs if vtag[v] == "short"]
-    classes = sorted({a for v in vecs for a in v})
-    if len(vecs) < 500 or len(short) < 50 or len(huge) < 3 or len(allocating) < 10 or not any(len(v) == 3 for v in vecs):
-        raise Machinery("argument grid incomplete: %d vectors, %d short, %d huge classes, %d allocating names" % (len(vecs), len(short), len(huge), len(allocating)))
-    rep.spaces.append({"space": "argument vectors of length <= 3 over %d argument classes (TLC-enumerated; %d of length 3; %d short vectors for "
-                                "the receiver variants)" % (len(classes), sum(1 for v in vecs if len(v) == 3), len(short)),
-                       "cases": len(vecs), "complete": True})
-    rep.notes["argument_classes"] = classes
-    py_classes = set(ARG_PY)
-    ecases = []
-    nslice = 12
-    for recv in RECEIVERS:
-        mine = short if (quick and recv in VARIANT_RECEIVERS) else vecs
-        ns = nslice if len(mine) > 200 else 2
-        for k in range(ns):
-            for intrep in (("lit",) if quick else ("lit", "float")):
-                # the second representation only differs for the vectors that contain a number
-                vs = [list(v) for v in mine[k::ns] if intrep == "lit" or any(a in py_classes for a in v)]
-                ecases.append({"kind": "grid", "recv": recv, "vecs": vs, "allocating": allocating, "huge": huge, "intrep": intrep})
-    stats["nrecv"] = len(RECEIVERS)
-    process(rep, rng, ecases, stats)
-    # ---- C. corpus prefixes, mutations, token soup (C->S) -------------------------------------------------------------
-    files = corpus()
-    ecases = []
-    npre = 0
-    for name, src in files:
-        stride = 1 if (not quick or len(src) <= 1300) else 11
-        off = rng.randrange(stride)
-        for i in range(off, len(src) + 1, stride):
-            ecases.append({"kind": "src", "src": src[:i], "time_limit": 0.3, "what": "prefix %s[:%d]" % (name, i)})
-            npre += 1
-    process(rep, rng, ecases, stats)
-    ecases = []
-    small = [s for _, s in files if len(s) <= (3500 if quick else 10 ** 9)]
-    nmut = 1500 if quick else 30000
-    for k in range(nmut):
-        s = rng.choice(small)
-        m = mutate(s, rng, small)
-        if rng.random() < 0.3:
-            m = mutate(m, rng, small)
-        ecases.append({"kind": "src", "src": m, "time_limit": 0.3, "what": "mutation #%d" % k})
-        # the same text with CRLF line endings: a CRLF pair is one line break for the reported position
-        ecases.append({"kind": "src", "src": m.replace("\r\n", "\n").replace("\n", "\r\n"), "time_limit": 0.3, "what": "mutation #%d (CRLF)" % k})
-    nsoup = 0
-    for a in VOCAB:                                  # all soups of length <= 2, seeded longer ones
-        ecases.append({"kind": "src", "src": a, "what": "soup"})
-        for b in VOCAB:
-            ecases.append({"kind": "src", "src": a + " " + b, "what": "soup"})
+
+    def part_corpus():
+        # ---- C. corpus prefixes, mutations, token soup (C->S) -------------------------------------------------------------
+        files = corpus()
+        ecases = []
+        npre = 0
+        for name, src in files:
+            stride = 1 if (not quick or len(src) <= 1300) else 11
+            off = rng.randrange(stride)
+            for i in range(off, len(src) + 1, stride):
+                ecases.append({"kind": "src", "src": src[:i], "time_limit": 0.3, "what": "prefix %s[:%d]" % (name, i)})
+                npre += 1
+        process(rep, rng, ecases, stats)
+        ecases = []
+        small = [s for _, s in files if len(s) <= (3500 if quick else 10 ** 9)]
+        nmut = 1500 if quick else 30000
+        for k in range(nmut):
+            s = rng.choice(small)
+            m = mutate(s, rng, small)
+            if rng.random() < 0.3:
+                m = mutate(m, rng, small)
+            ecases.append({"kind": "src", "src": m, "time_limit": 0.3, "what": "mutation #%d" % k})
+            # the same text with CRLF line endings: a CRLF pair is one line break for the reported position
+            ecases.append({"kind": "src", "src": m.replace("\r\n", "\n").replace("\n", "\r\n"), "time_limit": 0.3, "what": "mutation #%d (CRLF)" % k})
+        nsoup = 0
+        for a in VOCAB:                                  # all soups of length <= 2, seeded longer ones
+            ecases.append({"kind": "src", "src": a, "what": "soup"})
+            for b in VOCAB:
+                ecases.append({"kind": "src", "src": a + " " + b, "what": "soup"})
+                nsoup += 1
+        for k in range(15000 if quick else 250000):
+            toks = [rng.choice(VOCAB) for _ in range(rng.randrange(3, 6))]
+            sep = rng.choice([" ", " ", "\n", ""])
+            ecases.append({"kind": "src", "src": sep.join(toks), "what": "soup"})
             nsoup += 1
-    for k in range(15000 if quick else 250000):
-        toks = [rng.choice(VOCAB) for _ in range(rng.randrange(3, 6))]
-        sep = rng.choice([" ", " ", "\n", ""])
-        ecases.append({"kind": "src", "src": sep.join(toks), "what": "soup"})
-        nsoup += 1
-    process(rep, rng, ecases, stats)
+        process(rep, rng, ecases, stats)
+        stats.update(npre=npre, nmut=nmut, nsoup=nsoup)
+
+    for pn, pfn in (("cls", part_cls), ("toks", part_toks), ("fam", part_fam), ("grid", part_grid), ("corpus", part_corpus)):
+        if pn in parts:
+            pfn()
     process(rep, rng, [], stats, flush=True)          # quick tier: everything collected so far in one engine / judge round
+    if partial:
+        rep.notes["partial_run"] = sorted(parts)
+        rep.evaluations = stats["recs"]
+        rep.exhaustive = False
+        if os.environ.get("VERIF_DEV") != "1":
+            raise Machinery("C04_PARTS is a development switch (set VERIF_DEV=1): a partial run is not a verdict")
+        return
+    npre, nmut, nsoup = stats["npre"], stats["nmut"], stats["nsoup"]
     discovered = stats["discovered"]
     nfn = sum(len(v) for v in discovered.values())
     if nfn < 150 or stats["ncalls"] < 10000:
@@ -335,6 +369,16 @@ def process(rep, rng, ecases, stats, flush=False):
                 recs.append(rec(i, "long", out=r.get("out", dict(NOLEX, o="hang")), lens=r.get("lens", [0]), fname=f["name"],
                                 args=[f["embed"], f["digit"]], vk=r.get("vk", "")))
                 srcs[i] = "numeric literal %s of %d digits (%s), embedding %s" % (f["name"], f["n"], f["digit"], f["embed"])
+            elif f["kind"] == "nest":
+                # ds = <<front-end work counted by the driver, length of the text (TLC's), depth>>
+                recs.append(rec(i, "nest", out=r.get("out", dict(NOLEX, o="hang")), lens=r.get("lens", [0]), fname=f["name"],
+                                vk=r.get("vk", ""), ds=[r.get("fe", 0), f["ds"][1], f["n"]]))
+                srcs[i] = "nesting %s, depth %d (%d characters, front-end work %s): %r" % (f["name"], f["n"], f["ds"][1], r.get("fe"), f["src"][:160])
+                if r.get("srclen", f["ds"][1]) != f["ds"][1]:
+                    raise Machinery("length of a nest program: TLC %d, driver %d" % (f["ds"][1], r["srclen"]))
+            elif f["kind"] == "chain":
+                recs.append(rec(i, "chain", out=r.get("out", dict(NOLEX, o="hang")), lens=r.get("lens", [0]), fname=f["name"], vk=r.get("vk", "")))
+                srcs[i] = "chain %s x %d: %r" % (f["name"], f["n"], (f["src"] + f["digit"] * 3 + " ... " + f["embed"])[:160])
             elif f["kind"] == "lt":
                 recs.append(rec(i, "lt", out=r.get("out", dict(NOLEX, o="hang")), lens=r.get("lens", [0]), lens2=r.get("lens2", [0]),
                                 fname=f["name"], args=[f["digit"]], vk=r.get("vk", "")))
